@@ -85,10 +85,10 @@ PROPS = {
             "rule S1 on poll_read: `mut self: Pin<&mut Self>` -> `&mut self`, `Pin::new(&mut self.0).poll(cx)` -> recv_poll(&mut self.0, cx) (its answer is the uninterpreted last_poll), `futures_io::AsyncRead` -> a one-method stand-in trait",
             "utf8_len is uninterpreted with additivity, >= character count, 0 for the empty text",
             "the byte level of a partly delivered event: rule S1 `buf.len().min(self.1.len())` -> min_usize(buf.capacity(), ..), `buf[..n].copy_from_slice(&self.1[..n]);` -> buf.put_front(&self.1, n), `self.1.drain(..n);` -> drop_front (assumed meanings); utf8(s) uninterpreted with length utf8_len(s)",
-            "assumed contract: Event::push_to appends the UTF-8 form of the event's block (delivered_form; the same text as write_to on a Vec<u8>, compared byte for byte with write_to by c11)",
+            "Event::push_to on its real text at the byte level (rule R9: `write!(buf, LIT, args..).unwrap()` on the Vec<u8> -> vw_lit / vw_arg, assumed meaning of std's formatting; a string's Display output is its UTF-8 form `utf8`): what is appended is delivered_form(e) = `event: ` utf8(T) LF iff typed, then `data: ` utf8(L) LF per line. That utf8 distributes over concatenation (delivered_form(e) == utf8(enc(e))) is not used and not assumed: the two forms are stated piece by piece",
         ],
         "not_covered": [
-            "Event::push_to on its real text (assumed contract; same text as write_to on a Vec<u8>; compared byte for byte with write_to by c11)",
+            "that the byte form of push_to and the character form of write_to denote the same text (utf8 over concatenation): compared byte for byte by c11",
             "the blocking Read::read of EventReceiver (same three arms as poll_read; not used by the server)",
             "ordering / exactly-once / queue overrun / sender outliving the client under real concurrency: bounded c11 only",
             "the closing blank line (open known finding)",
